@@ -103,6 +103,19 @@ func (r *Report) viol(rule, key, pos, detail string)   { r.add(rule, key, pos, s
 func (r *Report) info(rule, key, pos, detail string)   { r.add(rule, key, pos, stInfo, detail) }
 func (r *Report) count(name string, n int)             { r.Counters[name] += n }
 
+// shareFrom runs another property's rules and takes over the obligations of the rules
+// named in mapping (their id -> the id they carry here): a clause that two properties
+// depend on is decided once and reported under both.
+func (r *Report) shareFrom(c *Ctx, check func(*Ctx, *Report), mapping map[string]string) {
+	sub := newReport("shared")
+	check(c, sub)
+	for _, ob := range sub.Obs {
+		if id, ok := mapping[ob.Rule]; ok {
+			r.add(id, strings.TrimPrefix(ob.Key, ob.Rule+"|"), ob.Pos, ob.Status, ob.Detail)
+		}
+	}
+}
+
 // check adds a PROVEN or VIOLATION obligation depending on ok.
 func (r *Report) check(ok bool, rule, key, pos, okDetail, badDetail string) bool {
 	if ok {
